@@ -9,6 +9,8 @@ import (
 	"fmt"
 	"hash/fnv"
 	"os"
+	"runtime"
+	"runtime/debug"
 	"sort"
 	"strconv"
 	"strings"
@@ -190,6 +192,11 @@ func Main(t *testing.T, property string, cases []Case, params map[string]any) {
 	guardDone := false
 	sampleEvery := 1
 	perKey := map[string]int{}
+	// The garbage collector's background workers perturb goroutine scheduling (which matters wherever
+	// a check has to rely on cooperative yields): collect only at deterministic points, between cases.
+	debug.SetGCPercent(-1)
+	debug.SetMemoryLimit(3 << 30)
+	sinceGC := 0
 	for idx, c := range cases {
 		if idx%env.NShards != env.Shard || idx < env.From {
 			continue
@@ -203,6 +210,10 @@ func Main(t *testing.T, property string, cases []Case, params map[string]any) {
 		if journal != nil {
 			fmt.Fprintf(journal, "%d\t%s\n", idx, c.ID)
 		}
+		if sinceGC++; sinceGC >= 20 {
+			sinceGC = 0
+			runtime.GC()
+		}
 		o := c.Run(t)
 		if !guardDone && !o.Skip {
 			// Determinism guard: replay the first execution of the shard and compare observations.
@@ -210,7 +221,7 @@ func Main(t *testing.T, property string, cases []Case, params map[string]any) {
 			o2 := c.Run(t)
 			if digest(o) != digest(o2) {
 				res.DetGuardOK = false
-				res.Nondet = append(res.Nondet, "determinism guard: "+c.ID)
+				res.Nondet = append(res.Nondet, "determinism guard: "+c.ID+" first="+clip(digest(o), 700)+" second="+clip(digest(o2), 700))
 			}
 		}
 		res.Ran++
@@ -290,6 +301,13 @@ func Main(t *testing.T, property string, cases []Case, params map[string]any) {
 		}
 		fmt.Println(s)
 	}
+}
+
+func clip(s string, n int) string {
+	if len(s) > n {
+		return s[:n] + "…"
+	}
+	return s
 }
 
 func digest(o Outcome) string {
